@@ -27,7 +27,8 @@ pub fn check(c: &Case) -> CheckResult {
         let mut core = rand_hc::Hc128Core::from_seed(seed);
         let mut pos = 0;
         while pos < c.depth {
-            let mut block = [0u32; 16];
+            // `results` is an out-parameter: its previous content must not matter
+            let mut block = [(pos as u32).wrapping_mul(0x9e3779b9) | 1; 16];
             core.generate(&mut block);
             for (i, got) in block.iter().enumerate() {
                 let want = m.next();
